@@ -137,7 +137,14 @@ def check(case):
 
 
 def _strategy(tier):
-    return sources.any_text(tier, weights=(1, 2, 3, 5, 2, 2, 1, 1, 1)).map(lambda t: {'text': t})
+    return sources.any_text(tier, weights=(1, 2, 3, 5, 2, 2, 1, 1, 1, 3)).map(lambda t: {'text': t})
 
 
-LEGS = [Leg('text', check=check, strategy=_strategy, examples={'quick': 8000, 'thorough': 150000})]
+def _dict_enum(tier):
+    from gen import soup
+    for text in soup.dictionary_enumeration():
+        yield {'text': text}
+
+
+LEGS = [Leg('text', check=check, strategy=_strategy, examples={'quick': 8000, 'thorough': 150000}),
+        Leg('dictionary', check=check, enumerate=_dict_enum, exhaustive=True)]
